@@ -597,9 +597,18 @@ package testscript
 //@   modifies fsExists, gOpFailed
 //@   at call os.Symlink#1: requires sameStr(oldname, at(args, lo(args)+2))
 //@   ensures !neg && len(args) == 3 && gOpFailed == old(gOpFailed)
+// unquote file...: what is unquoted is what was read from the file, and the result is
+// written back to that same file.
+//@ ghost var gUqRead Slice
+//@ ghost var gUqOut Slice
 //@ func (*TestScript).cmdUnquote
 //@   requires ts != nil
-//@   modifies new bytes, fsExists, fsData, fsSize, fsBytes, fsWrites, gOpFailed
+//@   at call os.ReadFile#1: requires sameStr(name, file)
+//@   at call os.ReadFile#1: ghost_after gUqRead = data
+//@   at call txtar.Unquote#1: requires sameSlice(data, gUqRead)
+//@   at call txtar.Unquote#1: ghost_after gUqOut = r
+//@   at call os.WriteFile#1: requires sameStr(name, file) && sameSlice(data, gUqOut)
+//@   modifies new bytes, fsExists, fsData, fsSize, fsBytes, fsWrites, gOpFailed, gUqRead, gUqOut
 //@   loop 1: invariant -1 <= rangeindex && gOpFailed == old(gOpFailed)
 //@   ensures !neg && gOpFailed == old(gOpFailed)
 //@ func (*TestScript).cmdUNIX2DOS
